@@ -17,6 +17,10 @@ import (
 type VerifCtxFrame struct {
 	Fn         *LFunction
 	Arg1, Arg2 LValue
+	// Pending is the opcode of the instruction a Lua frame is in the middle of (the one before its
+	// pc), -1 for Go functions: a frame pending in OP_TAILCALL of a Go function is removed when that
+	// function returns and never executes another instruction.
+	Pending int
 }
 
 // VerifCtxFrames lists the call frames of L, bottom first.
@@ -31,7 +35,11 @@ func VerifCtxFrames(L *LState) []VerifCtxFrame {
 	}
 	for i := 0; i < n; i++ {
 		cf := L.stack.At(i)
-		out = append(out, VerifCtxFrame{Fn: cf.Fn, Arg1: cell(cf.LocalBase), Arg2: cell(cf.LocalBase + 1)})
+		pending := -1
+		if cf.Fn != nil && !cf.Fn.IsG && cf.Pc > 0 && cf.Pc <= len(cf.Fn.Proto.Code) {
+			pending = int(cf.Fn.Proto.Code[cf.Pc-1] >> 26)
+		}
+		out = append(out, VerifCtxFrame{Fn: cf.Fn, Arg1: cell(cf.LocalBase), Arg2: cell(cf.LocalBase + 1), Pending: pending})
 	}
 	return out
 }
